@@ -4,7 +4,7 @@
    is loaded with (default, or p again), c = a component of the package, c' = the component as stored. *)
 From Coq Require Import String Ascii List Bool ZArith Arith.
 Import ListNotations.
-Require Import V.Lib.PyStr V.Lib.JTree V.Conf.Model V.Conf.Proofs V.Reload.Model V.Reload.Proofs V.Reload.Obs V.Reload.Idem V.Reload.IdemDoc V.Reload.IdemAll V.Reload.Dir.
+Require Import V.Lib.PyStr V.Lib.JTree V.Conf.Model V.Conf.Proofs V.Reload.Model V.Reload.Proofs V.Reload.Obs V.Reload.Idem V.Reload.IdemDoc V.Reload.IdemAll V.Reload.Dir V.Reload.Loops.
 Open Scope string_scope.
 
 (* Variables: every variable of every component has, in the reloaded document, the value the package gives it on p
@@ -282,6 +282,31 @@ Theorem C07_open_no_update : forall (desc : Type) (mine : desc) reparse fl d e d
 Proof. exact open_no_update. Qed.
 Print Assumptions C07_open_no_update.
 
+(* The loop placeholders over time (Loops.v; seventh round).  The live graph instantiates iteration after iteration on ONE
+   state (after k = k times next_iteration from create); the directory holds the instances 0..k in some order; the experiment
+   loaded from it (load: a new graph, no earlier state) has the placeholder of the live one - the same instances and the same
+   latest one, which is iteration k as a NUMBER, for every k (10 after 9, 100 after 99) *)
+Theorem C07_loops_live_latest : forall k,
+  l_latest (after k) = Some (N.of_nat k) /\ l_comps (after k) = map N.of_nat (seq 0 (S k)).
+Proof. intros k. split; [exact (live_latest k)|exact (live_represents k)]. Qed.
+Print Assumptions C07_loops_live_latest.
+
+Theorem C07_loops_reload : forall k l, stored (after k) l ->
+  l_latest (load l) = l_latest (after k) /\ Permutation.Permutation (l_comps (load l)) (l_comps (after k)).
+Proof. exact reload_latest. Qed.
+Print Assumptions C07_loops_reload.
+
+(* the order in which the stored instances are read does not matter *)
+Theorem C07_loops_latest_order : forall l l', Permutation.Permutation l l' -> latest_of l = latest_of l'.
+Proof. exact latest_of_perm. Qed.
+Print Assumptions C07_loops_latest_order.
+
+(* the references of the instances of different iterations are different texts: comparing the text of `latest` of the experiment
+   that wrote the instance with the one of the reloaded experiment compares the iterations *)
+Theorem C07_loops_reference_injective : forall st i j name, inst_ref st i name = inst_ref st j name -> i = j.
+Proof. exact inst_ref_inj. Qed.
+Print Assumptions C07_loops_reference_injective.
+
 (* non-vacuity: a two-platform package with a user variable; the flattened document exists, the stage filter is
    exercised (g is defined on the default stage and globally on p), the component is stored with the blueprints folded
    in, the environment is merged, and the hypotheses of the theorems hold of it *)
@@ -341,7 +366,13 @@ Example C07_nonvacuous :
       stored; three loads (instance / auto, with and without update) give it again *)
    (exists e d1, open_experiment nat 1 (fun s => Some s) Package true (Some 7) = Some (e, d1) /\ e = 1 /\
                  Forall not_package [(Instance, true); (Auto, false); (Instance, false)] /\
-                 reloads nat 1 (fun s => Some s) [(Instance, true); (Auto, false); (Instance, false)] d1 = Some ([1; 1; 1], Some 1))).
+                 reloads nat 1 (fun s => Some s) [(Instance, true); (Auto, false); (Instance, false)] d1 = Some ([1; 1; 1], Some 1)) /\
+   (* the loop placeholders: eleven further iterations on one live graph; the directory lists the instances in another order (here:
+      the newest first); the experiment loaded from it is fed by stage1.11#collect as the live one *)
+   (stored (after 11) [11; 10; 9; 8; 7; 6; 5; 4; 3; 2; 1; 0]%N /\
+    view 1 "collect" (load [11; 10; 9; 8; 7; 6; 5; 4; 3; 2; 1; 0]%N) =
+      ("stage1.11#collect", map (fun i => inst_ref 1 i "collect") [11; 10; 9; 8; 7; 6; 5; 4; 3; 2; 1; 0]%N) /\
+    fst (view 1 "collect" (after 11)) = "stage1.11#collect")).
 Proof.
   split; [|split; [|split; [|split; [|split; [|split; [|split; [|split; [|split; [|split; [|split]]]]]]]]]].
   - eexists. split; [vm_compute; reflexivity|]. vm_compute. repeat split; reflexivity.
@@ -358,6 +389,10 @@ Proof.
   - intros sk. eexists. reflexivity.
   - split.
     + do 2 eexists. split; vm_compute; reflexivity.
-    + exists 1, (Some 1). split; [reflexivity|]. split; [reflexivity|]. split; [|reflexivity].
-      repeat constructor; unfold not_package; simpl; discriminate.
+    + split.
+      * exists 1, (Some 1). split; [reflexivity|]. split; [reflexivity|]. split; [|reflexivity].
+        repeat constructor; unfold not_package; simpl; discriminate.
+      * split; [|split; vm_compute; reflexivity].
+        unfold stored. change (l_comps (after 11)) with (rev [11; 10; 9; 8; 7; 6; 5; 4; 3; 2; 1; 0]%N).
+        apply Permutation.Permutation_rev.
 Qed.
